@@ -1,8 +1,9 @@
 SPECIFICATION Spec
 CONSTANTS
-  Kinds = {"lambda", "closure", "rec", "cinst", "inst", "ccls", "cls", "icinst", "icls"}
+  Kinds = {"lambda", "closure", "rec", "cinst", "inst", "ccls", "cls", "icinst", "icls", "sinst", "bufinst"}
   MaxSt = 3
   MaxDepth = 2
+  Protos = {0, 1, 2, 3, 4, 5}
   MaxSteps = 7
 INVARIANT StBounded
 PROPERTY ArrivalRule
